@@ -84,13 +84,17 @@ def _gen_shape(t, small=False):
     maxn = 2 if small else 4
 
     def sibs(pfx, n, start=0):
+        # start==9 crosses the one-digit/two-digit boundary; start==-1 picks a sparse index set in
+        # which one index is a *string* prefix of others (1 vs 10, 11, 100)
+        if start == -1:
+            return [f"{pfx}.{i}" for i in (1, 10, 11, 2, 100)[:n]]
         return [f"{pfx}.{start + i}" for i in range(n)]
 
     if kind in ("dot", "dot_of_dot"):
         # scattered ports carry tags prefix.i (i may be >= 10); some ports are non-scattered
         # (tag == prefix, broadcast), possibly one deeper port prefix.i.j
         n = t.draw(maxn + 1, "n")
-        start = (0, 9)[t.draw(2, "start")]
+        start = (0, 9, -1)[t.draw(3, "start")]
         base = sibs(prefix, n, start)
         for p in ports:
             mode = t.draw(4, f"mode.{p}")
@@ -107,11 +111,11 @@ def _gen_shape(t, small=False):
         for p in ports:
             tags = []
             for pf in prefixes:
-                tags += sibs(pf, t.draw(maxn + 1, f"n.{p}"), (0, 9)[t.draw(2, f"start.{p}")])
+                tags += sibs(pf, t.draw(maxn + 1, f"n.{p}"), (0, 9, -1)[t.draw(3, f"start.{p}")])
             tokens[p] = [(tag, f"{p}@{tag}") for tag in tags]
     else:  # dot_of_cart / cart_inner
         for p in ("A", "B"):
-            tokens[p] = [(tag, f"{p}@{tag}") for tag in sibs(prefix, t.draw(maxn + 1, f"n.{p}"))]
+            tokens[p] = [(tag, f"{p}@{tag}") for tag in sibs(prefix, t.draw(maxn + 1, f"n.{p}"), (0, -1)[t.draw(2, f"start.{p}")])]
         if kind == "dot_of_cart":
             mode = t.draw(3, "mode.C")
             ctags = [prefix] if mode < 2 else []
